@@ -3,7 +3,6 @@ C02: the `Value` methods on wholly known numbers are the `Num` operations
 (lifting lemmas), the six comparison methods against `Num.cmp`, and the uniform
 "wrong operand type ⇒ rejected" lemmas for the type-checked operations.
 -/
-import CtyModel.Lemmas.StdlibRange
 import CtyModel.Lemmas.OpsEquals
 import CtyModel.Lemmas.ValEqNum
 namespace CtyModel
@@ -49,20 +48,26 @@ theorem abs_num (x : Num) : Value.abs (numVal x) = .ok (numVal (Num.abs x)) := b
 
 /-! ### the six comparison methods -/
 
-theorem lt_num (x y : Num) : Value.lessThan (numVal x) (numVal y) = .ok (boolVal (decide (Num.cmp x y < 0))) :=
-  Stdlib.lessThan_num x y
-theorem gt_num (x y : Num) : Value.greaterThan (numVal x) (numVal y) = .ok (boolVal (decide (Num.cmp x y > 0))) :=
-  Stdlib.greaterThan_num x y
-theorem eq_num (x y : Num) : Value.equals (numVal x) (numVal y) = .ok (boolVal (Num.rawEqual x y)) :=
-  Stdlib.equals_num x y
+theorem lt_num (x y : Num) : Value.lessThan (numVal x) (numVal y) = .ok (boolVal (decide (Num.cmp x y < 0))) := by
+  simp [Value.lessThan, binMarks, Value.isMarked, Payload.isMarked, numVal, lessThanU, typeCheck, typeCheckAux,
+    Ty.equals, Ty.isDyn, Value.isUnk, asNum]
+theorem gt_num (x y : Num) : Value.greaterThan (numVal x) (numVal y) = .ok (boolVal (decide (Num.cmp x y > 0))) := by
+  simp [Value.greaterThan, binMarks, Value.isMarked, Payload.isMarked, numVal, greaterThanU, typeCheck, typeCheckAux,
+    Ty.equals, Ty.isDyn, Value.isUnk, asNum]
+theorem eq_num (x y : Num) : Value.equals (numVal x) (numVal y) = .ok (boolVal (Num.rawEqual x y)) := by
+  simp [Value.equals, Value.containsMarked, Payload.containsMarked, numVal, equalsP, Payload.depth, equalsFuel,
+    equalsPre, Value.isNull, Payload.isNull, Payload.unmark1, definitelyNotNull, Value.isKnown, Payload.isKnown,
+    hasWhollyKnownType, Ty.equals]
+theorem or_bool (a b : Bool) : Value.or (boolVal a) (boolVal b) = .ok (boolVal (a || b)) := by
+  cases a <;> cases b <;> rfl
 
 theorem le_num (x y : Num) : Value.lessThanOrEqualTo (numVal x) (numVal y) =
     .ok (boolVal (decide (Num.cmp x y < 0) || Num.rawEqual x y)) := by
-  simp only [lessThanOrEqualTo, lt_num, eq_num, Res.bind_ok, Stdlib.or_bool]
+  simp only [lessThanOrEqualTo, lt_num, eq_num, Res.bind_ok, or_bool]
 
 theorem ge_num (x y : Num) : Value.greaterThanOrEqualTo (numVal x) (numVal y) =
     .ok (boolVal (decide (Num.cmp x y > 0) || Num.rawEqual x y)) := by
-  simp only [greaterThanOrEqualTo, gt_num, eq_num, Res.bind_ok, Stdlib.or_bool]
+  simp only [greaterThanOrEqualTo, gt_num, eq_num, Res.bind_ok, or_bool]
 
 theorem not_bool (a : Bool) : Value.not (boolVal a) = .ok (boolVal (!a)) := by cases a <;> rfl
 
